@@ -701,6 +701,8 @@ def gen_vprogram(rng, recursive=False):
         writable = [v for v in range(nv) if v not in ins]
         callees = list(range(1, nf)) if recursive else list(range(f + 1, nf))
 
+        last = [None]
+
         def do_call(g, argvar=None, unreachable=False):
             """emit (arg setup), a call of g, and possibly an assertion on its result; returns the lhs list"""
             gin, gout = sigs[g]
@@ -712,9 +714,19 @@ def gen_vprogram(rng, recursive=False):
                 if i == 0 and argvar is not None:
                     args.append(argvar)
                     continue
+                if i == 0 and len(gin) == 1 and last[0] is not None and last[0] not in lhs and rng.random() < 0.15:
+                    args.append(last[0])
+                    continue
                 cand = [v for v in writable if v not in lhs] or writable
                 x = rng.choice(cand)
-                set_arg(B, x, src=(ins[0] if ins and rng.random() < 0.5 else None))
+                if last[0] is not None and rng.random() < 0.3:
+                    # the value returned by the previous call of this function is passed on
+                    if last[0] not in lhs and rng.random() < 0.5:
+                        args.append(last[0])
+                        continue
+                    set_arg(B, x, src=last[0])
+                else:
+                    set_arg(B, x, src=(ins[0] if ins and rng.random() < 0.5 else None))
                 args.append(x)
             if unreachable:
                 x = args[0] if args else rng.choice(writable)
@@ -726,6 +738,8 @@ def gen_vprogram(rng, recursive=False):
                 else:
                     B.emit("unreachable")
             B.emit(call_text(g, lhs, args))
+            if lhs:
+                last[0] = lhs[0]
             if lhs and rng.random() < 0.65:
                 B.emit(rand_assert(lhs[0], others=args))
                 if rng.random() < 0.4:
@@ -930,6 +944,15 @@ CORPUS_VERD = [
     "inter 2 4 nasserts=2 | F 0 3 -1 I 0 O 0 | F 1 4 3 I 1 0 O 1 1 | B 0 0 assign 2 E 0 0 ; call 1 1 3 1 2 ; assign 2 E 0 9 ; call 1 1 3 1 2 | B 0 1 assume C le E 1 1 2 0 ; call 1 1 3 1 2 | E 0 0 1 0 2 | B 1 0 assign 1 E 0 0 | B 1 1 assume C le E 1 1 0 -5 | B 1 2 assume C le E 1 -1 0 6 ; assert C le E 1 1 0 -8 1 ; assign 1 E 0 1 | B 1 3 assert C le E 1 1 1 -1 2 | E 1 0 1 0 2 1 3 2 3",
     # chain main -> f1 -> f2 with f2 also called directly from main with another argument
     "inter 3 5 nasserts=2 | F 0 1 0 I 0 O 0 | F 1 1 0 I 1 0 O 1 1 | F 2 1 0 I 1 2 O 1 3 | B 0 0 assign 4 E 0 1 ; call 1 1 1 1 4 ; assign 4 E 0 6 ; call 2 1 1 1 4 ; assert C le E 1 1 1 -4 2 | B 1 0 arith add 4 0 k 1 ; call 2 1 1 1 4 | B 2 0 assert C le E 1 1 2 -3 1 ; arith add 3 2 k 1",
+    # mutual recursion, the block of the cycle's head that calls the other member has an assertion (fixed abort,
+    # c02inter-1: "in checking phase we should not analyze the callsite" with analyze_recursive_functions)
+    "inter 3 4 nasserts=1 | F 0 1 0 I 0 O 0 | F 1 4 3 I 1 0 O 1 2 | F 2 4 3 I 1 2 O 1 3 | B 0 0 call 1 1 1 1 0 | B 1 2 assert C le E 2 1 1 -1 0 1 1 ; call 2 1 1 1 1 | E 1 0 1 0 2 1 3 2 3 | B 2 2 call 1 1 1 1 0 | E 2 0 1 0 2 1 3 2 3",
+    # a member of a call graph cycle that is not its head, called twice by the head: the first context does not prove
+    # its assertion, the second does (fixed defect c02inter-2: only the last analysed context was checked)
+    "inter 3 5 nasserts=1 | F 0 1 0 I 0 O 0 | F 1 4 3 I 1 0 O 1 1 | F 2 1 0 I 1 2 O 1 3 | B 0 0 assign 4 E 0 3 ; call 1 1 1 1 4 | B 1 1 assume C le E 1 1 0 0 ; assign 1 E 0 0 | B 1 2 assume C le E 1 -1 0 1 ; havoc 4 ; assume C le E 1 -1 4 5 ; assume C le E 1 1 4 -10 ; call 2 1 1 1 4 ; assign 4 E 0 5 ; call 2 1 1 1 4 | E 1 0 1 0 2 1 3 2 3 | B 2 0 assert C le E 1 1 2 -7 1 ; assign 4 E 0 0 ; call 1 1 3 1 4",
+    # the cycle f1 -> f2 -> f3 -> f1 is entered by main through f2 (not its head) with an unconstrained argument and
+    # later through f1, which calls f2 with a constant (fixed defect c02inter-2: the first analysis of f2 was never checked)
+    "inter 4 6 nasserts=1 | F 0 8 7 I 0 O 0 | F 1 4 3 I 1 1 O 1 3 | F 2 4 3 I 2 1 3 O 0 | F 3 4 3 I 1 1 O 1 5 | B 0 3 call 2 0 2 0 2 | B 0 5 call 1 1 3 1 2 | E 0 0 1 1 2 2 3 2 4 3 2 4 5 4 6 5 7 6 7 | B 1 2 assign 5 E 0 -1 ; call 2 0 2 2 5 | E 1 0 1 0 2 1 3 2 3 | B 2 1 assert C lt E 1 1 3 -2 1 | B 2 2 call 3 1 5 1 5 | E 2 0 1 0 2 1 3 2 3 | B 3 2 assume C le E 1 -1 4 -2 ; call 1 1 2 1 4 | E 3 0 1 0 2 1 3 2 3",
     # recursion: the assertion holds for the outer call and fails in the recursive ones
     "inter 2 4 nasserts=1 | F 0 1 0 I 0 O 0 | F 1 4 3 I 1 0 O 1 1 | B 0 0 assign 2 E 0 3 ; call 1 1 3 1 2 | B 1 0 assert C le E 1 -1 0 3 1 | B 1 1 assume C le E 1 1 0 0 ; assign 1 E 0 0 | B 1 2 assume C le E 1 -1 0 1 ; arith sub 2 0 k 1 ; call 1 1 1 1 2 ; arith add 1 1 k 1 | E 1 0 1 0 2 1 3 2 3",
 ]
